@@ -46,20 +46,21 @@ type Runner struct {
 	Root     string // /verif
 	Deadline time.Time
 
-	mu          sync.Mutex
-	evals       int64
-	shrinkEvals int64
-	hashes      map[uint64]struct{}
-	classes     map[string]int64
-	excluded    map[string]int64
-	samples     []json.RawMessage
-	sampleSeen  int64
-	violations  []Violation
-	knownSeen   map[string]string
-	perCheck    map[string]*checkStat
-	notes       []string
-	budgetHit   bool
-	exhaustive  map[string]bool
+	mu           sync.Mutex
+	evals        int64
+	shrinkEvals  int64
+	hashes       map[uint64]struct{}
+	classes      map[string]int64
+	excluded     map[string]int64
+	samples      []json.RawMessage
+	sampleSeen   int64
+	violations   []Violation
+	knownSeen    map[string]string
+	perCheck     map[string]*checkStat
+	notes        []string
+	harnessSkips int64
+	budgetHit    bool
+	exhaustive   map[string]bool
 
 	replayers map[string]func(json.RawMessage) Result
 	known     map[string]string // key -> text (from known_findings.txt, this property)
@@ -300,6 +301,44 @@ func (r *Runner) recordCurrent(check string, raw []byte) {
 
 func (r *Runner) clearCurrent() { _ = os.Remove(filepath.Join(r.OutDir, "current-case.json")) }
 
+// IsHarnessErr reports whether a result says that the harness itself could not set the case up
+// because the environment ran out of a resource (ports, descriptors, memory, disk): that is never a
+// statement about the code. Any other set-up failure is still reported (the code under test takes part in it).
+func IsHarnessErr(res Result) bool {
+	if res.Err == nil || !strings.HasPrefix(res.Err.Error(), "harness:") {
+		return false
+	}
+	for _, e := range []string{"address already in use", "too many open files", "cannot assign requested address",
+		"no buffer space available", "cannot allocate memory", "no space left on device"} {
+		if strings.Contains(res.Err.Error(), e) {
+			return true
+		}
+	}
+	return false
+}
+
+// guarded runs a case; a harness set-up error is retried after a pause and, if it persists, the case is
+// skipped and counted (too many skipped cases make the run inconclusive, never a violation).
+func guarded[C any](r *Runner, name string, run func(C) Result, c C) Result {
+	res := run(c)
+	for try := 0; try < 3 && IsHarnessErr(res); try++ {
+		time.Sleep(time.Duration(500*(try+1)) * time.Millisecond)
+		res = run(c)
+	}
+	if IsHarnessErr(res) {
+		r.mu.Lock()
+		r.harnessSkips++
+		n := r.harnessSkips
+		r.classes["harness-setup-error-case-skipped"]++
+		r.mu.Unlock()
+		if n <= 5 {
+			r.Note("%s: case skipped, the harness could not set it up: %v", name, res.Err)
+		}
+		return Result{Classes: []string{"skipped"}}
+	}
+	return res
+}
+
 // Register makes a check replayable without running its generated search.
 func Register[C any](r *Runner, name string, run func(C) Result) {
 	r.replayers[name] = func(raw json.RawMessage) Result {
@@ -345,9 +384,9 @@ func RunCheck[C any](r *Runner, ck Check[C]) {
 		if ck.RecordCurrent {
 			r.recordCurrent(ck.Name, raw)
 		}
-		res := ck.Run(c)
+		res := guarded(r, ck.Name, ck.Run, c)
 		if res.Err != nil && ck.Confirm {
-			res2 := ck.Run(c)
+			res2 := guarded(r, ck.Name, ck.Run, c)
 			if res2.Err == nil {
 				r.Note("%s: a failure did not reproduce on immediate re-execution and was discarded: %v", ck.Name, res.Err)
 				res = res2
@@ -427,12 +466,12 @@ func RunCases[C any](r *Runner, name string, cases []C, run func(C) Result, conf
 		if confirm {
 			r.recordCurrent(name, raw)
 		}
-		res := run(c)
+		res := guarded(r, name, run, c)
 		if confirm {
 			r.clearCurrent()
 		}
 		if res.Err != nil && confirm {
-			if res2 := run(c); res2.Err == nil {
+			if res2 := guarded(r, name, run, c); res2.Err == nil {
 				r.Note("%s: a failure did not reproduce on immediate re-execution and was discarded: %v", name, res.Err)
 				res = res2
 			}
@@ -487,7 +526,17 @@ func (r *Runner) Replay(path string) Result {
 	if f == nil {
 		return Fail("replay: unknown check %q in %s", rf.Check, path)
 	}
-	return f(rf.Case)
+	res := f(rf.Case)
+	for try := 0; try < 3 && IsHarnessErr(res); try++ {
+		time.Sleep(time.Duration(500*(try+1)) * time.Millisecond)
+		res = f(rf.Case)
+	}
+	if IsHarnessErr(res) {
+		r.Note("replay of %s skipped, the harness could not set it up: %v", path, res.Err)
+		r.T.Errorf("HARNESS-ERROR replay of %s: %v", path, res.Err)
+		return Result{}
+	}
+	return res
 }
 
 // Finish replays regress cases (or the requested replay file) and writes the evidence part.
@@ -529,7 +578,11 @@ func (r *Runner) Finish() {
 	}
 	r.mu.Lock()
 	r.classes["regress_cases_replayed"] += int64(regress)
+	skips, evals := r.harnessSkips, r.evals
 	r.mu.Unlock()
+	if skips > 3 && skips*100 > evals {
+		r.T.Errorf("HARNESS-ERROR %d of %d cases could not be set up by the harness (environment)", skips, evals)
+	}
 	r.writePart()
 }
 
